@@ -146,7 +146,41 @@ func genC03(r *Rng, tier string, i int) map[string]any {
 			st.rows[a][pi], st.rows[b][pi], st.rows[c][pi] = st.rows[b][0], st.rows[c][0], st.rows[a][0]
 		}
 	}
+	ringOfParents(r, st)
 	return staticCase(f.members(r, false, nil), nil, r.Bool(), map[string]any{"truth": f.truth()})
+}
+
+// ringOfParents (one case in three) makes k of the stops name each other as parent in a ring, k from 1 to far beyond
+// any plausible hierarchy depth, the rows in file order, reversed or shuffled, with a tail of stops hanging off it.
+func ringOfParents(r *Rng, st *table) {
+	if !r.P(1, 3) || len(st.rows) < 2 {
+		return
+	}
+	pi := 9
+	want := []int{1, 2, 3, 8, 9, 10, 16, 17, 25, 40}[r.Intn(10)]
+	for len(st.rows) < want+2 {
+		row := append([]string{}, st.rows[0]...)
+		row[0] = fmt.Sprintf("RING%d", len(st.rows))
+		row[pi] = ""
+		st.rows = append(st.rows, row)
+	}
+	idx := r.Perm(len(st.rows))[:want]
+	for j, x := range idx {
+		st.rows[x][pi] = st.rows[idx[(j+1)%want]][0]
+		if r.P(1, 2) {
+			st.rows[x][8] = r.Pick([]string{"0", "1", "2", "3", "4", ""})
+		}
+	}
+	for x := range st.rows {
+		if st.rows[x][pi] == "" && r.P(1, 4) {
+			st.rows[x][pi] = st.rows[idx[r.Intn(want)]][0] // hangs off the ring
+		}
+	}
+	if r.Bool() {
+		for i, j := 0, len(st.rows)-1; i < j; i, j = i+1, j-1 {
+			st.rows[i], st.rows[j] = st.rows[j], st.rows[i]
+		}
+	}
 }
 
 // ---------- C05: nothing crashes or hangs ----------
@@ -169,6 +203,7 @@ func genC05(r *Rng, tier string, i int) map[string]any {
 	switch i % 4 {
 	case 0: // semantically wrong cells in syntactically valid CSV, files missing, odd headers
 		f := genFeed(r, feedOpts{messy: true})
+		ringOfParents(r, f.tables["stops.txt"])
 		drop := map[string]bool{}
 		if r.P(1, 4) {
 			drop[r.Pick(staticFiles)] = true
